@@ -316,7 +316,7 @@ func vTeardown() {
 
 func vB(s string) bool { return s == "1" }
 
-func vResetInner(f []string) string {
+func vReset(f []string) string {
 	vTeardown()
 	w := &vWorld{
 		streams: map[*stream.Stream]*vStreamInfo{}, rds: map[int]*vRd{},
@@ -376,28 +376,6 @@ func vResetInner(f []string) string {
 	vW = w
 	w.pa.initialize()
 	return w.settle()
-}
-
-// Which code variant is under test?  On a scratch path, let a publisher's SubStream.Initialize fail
-// and see whether the loop takes the stream down again (`notready`) before answering.
-var vFixedProbe = -1
-
-func vProbeFixed() bool {
-	if vFixedProbe < 0 {
-		vFixedProbe = 0
-		vResetInner(strings.Fields("reset pub 0 0 0 0 0 0 0 0 0 1000 1000"))
-		out := vExec("addpub 0 0")
-		vTeardown()
-		if strings.Contains(out, "notready") {
-			vFixedProbe = 1
-		}
-	}
-	return vFixedProbe == 1
-}
-
-func vReset(f []string) string {
-	fixed := vProbeFixed()
-	return "fix=" + vb(fixed) + " " + vResetInner(f)
 }
 
 // wait for quiescence, then render what the loop did and which answers arrived
